@@ -1,40 +1,421 @@
 package main
 
 import (
+	"encoding/json"
+	"flag"
 	"fmt"
 	"os"
+	"path/filepath"
+	"runtime"
+	"sort"
+	"strconv"
+	"strings"
+	"sync"
 	"time"
 
-	"golang.org/x/tools/go/packages"
 	"golang.org/x/tools/go/ssa"
-	"golang.org/x/tools/go/ssa/ssautil"
 )
 
-func main() {
-	t0 := time.Now()
-	cfg := &packages.Config{
-		Mode:       packages.NeedName | packages.NeedFiles | packages.NeedCompiledGoFiles | packages.NeedImports | packages.NeedDeps | packages.NeedTypes | packages.NeedSyntax | packages.NeedTypesInfo | packages.NeedTypesSizes,
-		Dir:        "/repo",
-		BuildFlags: []string{"-tags=verif"},
-		Env:        append(os.Environ(), "GOFLAGS=-mod=mod", "GOPROXY=off", "GOSUMDB=off", "GOTOOLCHAIN=local"),
-	}
-	pkgs, err := packages.Load(cfg, ".", "./x2j-wrapper", "./j2x", "./x2j")
-	if err != nil {
-		panic(err)
-	}
-	fmt.Println("load", time.Since(t0), len(pkgs))
-	prog, spkgs := ssautil.Packages(pkgs, ssa.NaiveForm)
-	for _, p := range spkgs {
-		if p != nil {
-			p.Build()
-		}
-	}
-	fmt.Println("ssa", time.Since(t0))
-	n := 0
-	for fn := range ssautil.AllFunctions(prog) {
-		if fn.Pkg != nil && fn.Blocks != nil {
-			n++
-		}
-	}
-	fmt.Println("funcs", n)
+type KnownFinding struct {
+	Property   string `json:"property"`
+	Status     string `json:"status"` // open | fixed
+	Obligation string `json:"obligation"` // func:kind:text  (ordinal-free key)
+	What       string `json:"what"`
+	Commit     string `json:"commit,omitempty"`
+	Witness    string `json:"witness,omitempty"`
 }
+
+var propPackages = map[string][]string{
+	"C20": {"./j2x", "./x2j", "./x2j-wrapper"},
+}
+
+func main() {
+	if len(os.Args) < 2 {
+		fmt.Fprintln(os.Stderr, "usage: govc check <property> [flags] | govc list | govc ghost [pkg]")
+		os.Exit(2)
+	}
+	switch os.Args[1] {
+	case "check":
+		os.Exit(cmdCheck(os.Args[2:]))
+	case "ghost":
+		pat := "."
+		if len(os.Args) > 2 {
+			pat = os.Args[2]
+		}
+		ld, err := Load("/repo", pat)
+		if err != nil {
+			fmt.Fprintln(os.Stderr, err)
+			os.Exit(2)
+		}
+		fmt.Println(ld.GhostSrc)
+		for _, e := range ld.Errors {
+			fmt.Fprintln(os.Stderr, "ERROR:", e)
+		}
+	default:
+		fmt.Fprintln(os.Stderr, "unknown command", os.Args[1])
+		os.Exit(2)
+	}
+}
+
+type funcReport struct {
+	Name        string   `json:"name"`
+	Obligations int      `json:"obligations"`
+	Discharged  int      `json:"discharged"`
+	Trivial     int      `json:"trivial"`
+	HasContract bool     `json:"has_contract"`
+	Clauses     int      `json:"clauses"`
+	Error       string   `json:"error,omitempty"`
+	Kinds       map[string]int `json:"kinds"`
+}
+
+func cmdCheck(argv []string) int {
+	fs := flag.NewFlagSet("check", flag.ExitOnError)
+	tier := fs.String("tier", "quick", "quick|thorough")
+	repo := fs.String("repo", "/repo", "repository directory")
+	verifDir := fs.String("verif", "/verif", "verif directory")
+	only := fs.String("func", "", "only this function (debug)")
+	keep := fs.Bool("keep", false, "keep scratch SMT files")
+	verbose := fs.Bool("v", false, "verbose")
+	timeoutFlag := fs.Int("timeout", 0, "per-obligation solver timeout (s)")
+	if len(argv) < 1 {
+		fmt.Fprintln(os.Stderr, "usage: govc check <property>")
+		return 2
+	}
+	prop := argv[0]
+	fs.Parse(argv[1:])
+	if t := os.Getenv("VERIF_TIER"); t == "quick" || t == "thorough" {
+		*tier = t
+	}
+	seed := 0
+	if s := os.Getenv("VERIF_SEED"); s != "" {
+		seed, _ = strconv.Atoi(s)
+	}
+	timeoutS := 10
+	if *tier == "thorough" {
+		timeoutS = 60
+	}
+	if *timeoutFlag > 0 {
+		timeoutS = *timeoutFlag
+	}
+	t0 := time.Now()
+	scratch, err := os.MkdirTemp("", "govc-"+prop+"-")
+	if err != nil {
+		fmt.Fprintln(os.Stderr, err)
+		return 2
+	}
+	if !*keep {
+		defer os.RemoveAll(scratch)
+	} else {
+		fmt.Fprintln(os.Stderr, "scratch:", scratch)
+	}
+
+	pats := []string{"."}
+	if p, ok := propPackages[prop]; ok {
+		pats = p
+	}
+	var allObls []*Obligation
+	var reports []*funcReport
+	trusted := map[string]bool{}
+	var loadErrors []string
+	var engines []*Engine
+	nContracted := 0
+	for _, pat := range pats {
+		ld, err := Load(*repo, pat)
+		if err != nil {
+			loadErrors = append(loadErrors, fmt.Sprintf("%s: %v", pat, err))
+			continue
+		}
+		for _, e := range ld.Errors {
+			loadErrors = append(loadErrors, pat+": "+e)
+		}
+		eng := NewEngine(ld)
+		eng.verbose = *verbose
+		engines = append(engines, eng)
+		// functions carrying this property
+		var names []string
+		for _, n := range ld.Contracts.Order {
+			fc := ld.Contracts.Funcs[n]
+			for _, p := range fc.Props {
+				if p == prop {
+					names = append(names, n)
+					break
+				}
+			}
+		}
+		for _, n := range names {
+			if *only != "" && n != *only {
+				continue
+			}
+			fc := ld.Contracts.Funcs[n]
+			rep := &funcReport{Name: pat + ":" + n, HasContract: true, Clauses: len(fc.Requires) + len(fc.Ensures), Kinds: map[string]int{}}
+			reports = append(reports, rep)
+			if fc.Obj == nil {
+				continue
+			}
+			if fc.Trusted {
+				trusted["trusted contract (assumed, body not verified): "+n] = true
+				continue
+			}
+			nContracted++
+			fn := ld.Prog.FuncValue(fc.Obj)
+			if fn == nil {
+				rep.Error = "no SSA function"
+				loadErrors = append(loadErrors, "no SSA function for "+n)
+				continue
+			}
+			ctx, err := eng.VerifyFunction(fn)
+			if err != nil {
+				rep.Error = err.Error()
+				// fail closed: an undecidable function is reported
+				o := &Obligation{Name: fmt.Sprintf("%s:subset:%s", n, err.Error()), Kind: "subset", Func: n, Status: "error", Output: err.Error(), Props: fc.Props, Ctx: ctx}
+				allObls = append(allObls, o)
+				continue
+			}
+			for t := range ctx.trusted {
+				trusted[t] = true
+			}
+			// vacuity: entry facts must be satisfiable
+			allObls = append(allObls, ctx.obls...)
+			allObls = append(allObls, ctx.coverObligations()...)
+		}
+		for t := range eng.trusted {
+			trusted[t] = true
+		}
+	}
+	// discharge in parallel
+	par := runtime.NumCPU() / 2
+	if par < 1 {
+		par = 1
+	}
+	var wg sync.WaitGroup
+	sem := make(chan struct{}, par)
+	for i, o := range allObls {
+		if o.Status == "trivial" || o.Status == "error" {
+			if o.Status == "trivial" {
+				o.Solver = "simplifier"
+			}
+			continue
+		}
+		wg.Add(1)
+		sem <- struct{}{}
+		go func(i int, o *Obligation) {
+			defer wg.Done()
+			defer func() { <-sem }()
+			o.Ctx.eng.Discharge(o, scratch, i, timeoutS, seed)
+		}(i, o)
+	}
+	wg.Wait()
+
+	// known findings
+	known := loadKnown(filepath.Join(*verifDir, "known_findings.json"))
+	// classify
+	var failed []*Obligation
+	byFunc := map[string]*funcReport{}
+	for _, r := range reports {
+		byFunc[r.Name[strings.Index(r.Name, ":")+1:]] = r
+	}
+	nObl, nDis, nTriv := 0, 0, 0
+	bySolver := map[string]int{}
+	var solverTime, maxTime float64
+	kinds := map[string]int{}
+	covers := map[string]int{}
+	for _, o := range allObls {
+		if o.Kind == "cover" {
+			// expectation inverted: unsat = vacuous
+			covers[o.Status]++
+			if o.Status == "unsat" {
+				o.Output = "VACUOUS: assumptions at this point are contradictory\n" + o.Output
+				failed = append(failed, o)
+			}
+			continue
+		}
+		nObl++
+		kinds[o.Kind]++
+		if r := byFunc[o.Func]; r != nil {
+			r.Obligations++
+			r.Kinds[o.Kind]++
+		}
+		switch o.Status {
+		case "trivial":
+			nDis++
+			nTriv++
+			bySolver["simplifier"]++
+			if r := byFunc[o.Func]; r != nil {
+				r.Discharged++
+				r.Trivial++
+			}
+		case "unsat":
+			nDis++
+			bySolver[o.Solver]++
+			solverTime += o.Time
+			if o.Time > maxTime {
+				maxTime = o.Time
+			}
+			if r := byFunc[o.Func]; r != nil {
+				r.Discharged++
+			}
+		default:
+			failed = append(failed, o)
+		}
+	}
+	// report
+	exit := 0
+	var violations []map[string]string
+	var knownHit []string
+	for _, le := range loadErrors {
+		fmt.Printf("LOAD-ERROR: %s\n", le)
+	}
+	if len(loadErrors) > 0 {
+		rp := writeReplay(*verifDir, prop, "load", "load/contract binding failed:\n"+strings.Join(loadErrors, "\n"))
+		fmt.Printf("VIOLATION property=%s replay=%s obligation=contract-target no-failing-input-found\n", prop, rp)
+		violations = append(violations, map[string]string{"obligation": "contract-target", "detail": strings.Join(loadErrors, "; ")})
+		exit = 1
+	}
+	sort.Slice(failed, func(i, j int) bool { return failed[i].Name < failed[j].Name })
+	for _, o := range failed {
+		key := o.Key()
+		if kf := matchKnown(known, prop, key); kf != nil {
+			fmt.Printf("KNOWN-FINDING: property=%s %s (%s)\n", prop, kf.What, key)
+			knownHit = append(knownHit, key)
+			continue
+		}
+		body := fmt.Sprintf("obligation: %s\nkey: %s\nkind: %s\nfunction: %s\nsource: %s\nclause/reason: %s\nsolver verdict: %s\n\n%s\n", o.Name, key, o.Kind, o.Func, o.Pos, o.Src, o.Status, o.Output)
+		suffix := " no-failing-input-found"
+		if o.Status == "sat" {
+			rep, ok := tryReplay(o, *repo, scratch)
+			body += "\n--- replay ---\n" + rep
+			if ok {
+				suffix = ""
+			}
+		}
+		rp := writeReplay(*verifDir, prop, o.Name, body)
+		fmt.Printf("VIOLATION property=%s replay=%s obligation=%q verdict=%s%s\n", prop, rp, o.Name, o.Status, suffix)
+		violations = append(violations, map[string]string{"obligation": o.Name, "verdict": o.Status, "replay": rp})
+		exit = 1
+	}
+	if nContracted == 0 && len(loadErrors) == 0 {
+		fmt.Printf("VIOLATION property=%s replay=%s obligation=no-contracts no-failing-input-found\n", prop, writeReplay(*verifDir, prop, "none", "no function under contract for this property: vacuous"))
+		exit = 1
+	}
+	if nObl == 0 && exit == 0 {
+		fmt.Printf("VIOLATION property=%s replay=%s obligation=zero-obligations no-failing-input-found\n", prop, writeReplay(*verifDir, prop, "zero", "zero obligations generated: vacuous"))
+		exit = 1
+	}
+	// evidence
+	var tb []string
+	for t := range trusted {
+		tb = append(tb, t)
+	}
+	sort.Strings(tb)
+	tb = append(tb,
+		"model: maps are heap objects (typed heaps), slices are immutable sequence values, strings are byte strings (SMT String, chars 0..255)",
+		"model: map range yields an arbitrary sequence of present entries (order, multiplicity and exhaustiveness not assumed)",
+		"engine: govc itself (VC generator over go/ssa NaiveForm) is unverified; guarded by the must-fail selftest corpus",
+	)
+	var samples []map[string]string
+	for _, o := range allObls {
+		if o.Status == "unsat" && len(samples) < 6 && o.Kind != "cover" {
+			g := o.Ctx.eng.ts.Show(o.Goal)
+			if len(g) > 600 {
+				g = g[:600] + " ..."
+			}
+			samples = append(samples, map[string]string{"obligation": o.Name, "solver": o.Solver, "goal": g, "clause": o.Src})
+		}
+	}
+	if len(samples) == 0 {
+		for _, o := range allObls {
+			if len(samples) < 3 {
+				samples = append(samples, map[string]string{"obligation": o.Name, "status": o.Status})
+			}
+		}
+	}
+	ev := map[string]interface{}{
+		"property_id": prop,
+		"tier":        *tier,
+		"seed":        seed,
+		"level":       "proof",
+		"wall_s":      time.Since(t0).Seconds(),
+		"violations":  len(violations),
+		"assumptions": tb,
+		"coverage": map[string]interface{}{
+			"obligations":         nObl,
+			"discharged":          nDis,
+			"discharged_trivially_by_simplifier": nTriv,
+			"checker_cmd":         "bin/govc check " + prop + " --tier " + *tier,
+			"trusted_base":        tb,
+			"samples":             samples,
+			"functions_under_contract": reports,
+			"obligations_by_kind": kinds,
+			"discharged_by_backend": bySolver,
+			"solver_time_total_s": solverTime,
+			"solver_time_max_s":   maxTime,
+			"per_obligation_timeout_s": timeoutS,
+			"vacuity_covers":      covers,
+			"known_findings_hit":  knownHit,
+			"violations":          violations,
+			"bounded":             []string{},
+			"explanation":         propExplanation(prop),
+		},
+	}
+	os.MkdirAll(filepath.Join(*verifDir, "evidence"), 0o755)
+	b, _ := json.MarshalIndent(ev, "", " ")
+	os.WriteFile(filepath.Join(*verifDir, "evidence", prop+".json"), b, 0o644)
+	fmt.Printf("govc: property %s: %d obligations, %d discharged (%d by simplifier), %d failed, %d known findings, %.1fs\n", prop, nObl, nDis, nTriv, len(failed)-len(knownHit), len(knownHit), time.Since(t0).Seconds())
+	if *verbose {
+		for _, r := range reports {
+			fmt.Printf("  %-50s obl=%d dis=%d %s\n", r.Name, r.Obligations, r.Discharged, r.Error)
+		}
+	}
+	_ = engines
+	return exit
+}
+
+// Key: ordinal-free identification of an obligation (function : kind : source text).
+func (o *Obligation) Key() string {
+	return fmt.Sprintf("%s:%s:%s", o.Func, o.Kind, strings.TrimSpace(o.Src))
+}
+
+func loadKnown(path string) []KnownFinding {
+	b, err := os.ReadFile(path)
+	if err != nil {
+		return nil
+	}
+	var k struct {
+		Findings []KnownFinding `json:"findings"`
+	}
+	json.Unmarshal(b, &k)
+	return k.Findings
+}
+
+func matchKnown(ks []KnownFinding, prop, key string) *KnownFinding {
+	for i := range ks {
+		if ks[i].Status == "open" && ks[i].Property == prop && ks[i].Obligation == key {
+			return &ks[i]
+		}
+	}
+	return nil
+}
+
+func writeReplay(verifDir, prop, name, body string) string {
+	dir := filepath.Join(verifDir, "replay")
+	os.MkdirAll(dir, 0o755)
+	fn := filepath.Join(dir, prop+"-"+sanitize(name)+".txt")
+	if len(fn) > 200 {
+		fn = fn[:200] + ".txt"
+	}
+	os.WriteFile(fn, []byte(body), 0o644)
+	return fn
+}
+
+func (c *FnCtx) coverObligations() []*Obligation {
+	// entry assumptions must not be contradictory: (facts at entry) ∧ true is satisfiable
+	if c.entryFacts == 0 {
+		return nil
+	}
+	ts := c.eng.ts
+	fname := c.top.RelString(c.top.Pkg.Pkg)
+	o := &Obligation{Name: fname + ":cover:entry", Kind: "cover", Func: fname, Goal: ts.Bool(false), NFacts: c.entryFacts, Ctx: c, Src: "requires ∧ package invariant satisfiable"}
+	return []*Obligation{o}
+}
+
+var _ = ssa.NaiveForm
